@@ -477,7 +477,8 @@ def gen_structured(rng, g, cfg, name, nodes, prices):
     ne = 2 if (len(nodes) >= 2 and rng.random() < cfg.get('p_struct_two_ext', 0.4)) else 1
     ext = rng.sample(nodes, ne)
     inner_node = name + '_in'
-    sub = dict(cfg, p_coarse=0.0, p_periodic=0.0, p_no_simult=0.0, p_max_store=0.0, p_blocks=0.0, p_window=cfg.get('p_window_inner', 0.2), window_kinds=['inside', 'left', 'right'])
+    sub = dict(cfg, p_coarse=0.0, p_periodic=0.0, p_no_simult=0.0, p_max_store=0.0, p_blocks=0.0, p_window=cfg.get('p_window_inner', 0.2),
+               window_kinds=cfg.get('inner_window_kinds', ['inside', 'left', 'right']))
     assets = []
     for k, e in enumerate(ext):
         # flows between the internal node and every external node, in either direction
